@@ -690,6 +690,14 @@ class Bubble(monoidal.Bubble, Box):
         self.func = func
         super().__init__(inside, **params)
 
+    @property
+    def free_symbols(self):
+        return self.inside.free_symbols
+
+    def subs(self, *args):
+        return Bubble(self.inside.subs(*args), func=self.func,
+                      drawing_name=self.drawing_name)
+
     def grad(self, var, **params):
         """
         The gradient of a bubble is given by the chain rule.
